@@ -64,12 +64,46 @@ fn convert(kind: &str, secs: i64, nanos: u32, off: i32) -> Option<String> {
     })
 }
 
+/// `tsfile S N`: a scratch file whose modification time is the instant, handed to `PackageBuilder::with_file`; the error
+/// variant of a refused mtime, or the FILEMTIMES value read back from the built package (no source date set). `unrepresentable`
+/// when the file system cannot hold the instant (checked by reading the mtime back). Seed C20-9: a builder-side helper that
+/// reported pre-1970 mtimes as Overflow.
+fn convert_file(secs: i64, nanos: u32) -> String {
+    let Some(when) = system_time(secs, nanos) else { return "unrepresentable".into() };
+    let path = std::path::PathBuf::from(format!("work/c20-mtime-{}", std::process::id()));
+    let _ = std::fs::create_dir_all("work");
+    let set = (|| -> std::io::Result<bool> {
+        let f = std::fs::File::create(&path)?;
+        f.set_modified(when)?;
+        drop(f);
+        Ok(std::fs::metadata(&path)?.modified()? == when)
+    })();
+    if !matches!(set, Ok(true)) {
+        let _ = std::fs::remove_file(&path);
+        return "unrepresentable".into();
+    }
+    let p2 = path.clone();
+    let r = guarded(move || -> Result<Timestamp, TimestampError> {
+        match rpm::PackageBuilder::new("c20", "1", "MIT", "noarch", "s").compression(rpm::CompressionType::None).with_file(&p2, rpm::FileOptions::new("/f")) {
+            Err(rpm::Error::TimestampConv(e)) => Err(e),
+            Err(e) => panic!("other error: {e}"),
+            Ok(b) => {
+                let pkg = b.build().expect("build");
+                Ok(pkg.metadata.get_file_entries().expect("entries")[0].modified_at)
+            }
+        }
+    });
+    let _ = std::fs::remove_file(&path);
+    obs(r)
+}
+
 pub fn eval(op: &str, a: &[&str]) -> Option<String> {
     let i = |s: &str| s.parse::<i64>().ok();
     let n = |s: &str| s.parse::<u32>().ok();
     let o = |s: &str| s.parse::<i32>().ok();
     match op {
         "tssys" if a.len() == 2 => convert("sys", i(a[0])?, n(a[1])?, 0),
+        "tsfile" if a.len() == 2 => Some(convert_file(i(a[0])?, n(a[1])?)),
         "tsutc" if a.len() == 2 => convert("utc", i(a[0])?, n(a[1])?, 0),
         "tsfix" if a.len() == 3 => convert("fix", i(a[0])?, n(a[1])?, o(a[2])?),
         "tspair" if a.len() == 8 => {
@@ -227,6 +261,24 @@ pub fn gen(ctx: &mut Ctx) {
                     emit_instant(ctx, secs, *nanos, &sel);
                 }
             }
+        }
+    }
+
+    // 1b. the same conversion reached through `PackageBuilder::with_file` (a source file's modification time): every second
+    //     within ±40 of the three boundaries, with and without a sub-second part, plus a few far points
+    {
+        let mut k = 0u64;
+        for centre in [0i64, TWO31, TWO32] {
+            for d in -40i64..=40 {
+                for nanos in [0u32, 500_000_000, 999_999_999] {
+                    k += 1;
+                    if k % sn == si { ctx.req(&format!("tsfile {} {}", centre + d, nanos)); }
+                }
+            }
+        }
+        for secs in [-86_400i64, -2_000_000_000, -1, 1_600_000_000, 5_000_000_000, 10_000_000_000] {
+            k += 1;
+            if k % sn == si { ctx.req(&format!("tsfile {} 0", secs)); }
         }
     }
 
